@@ -509,6 +509,11 @@ structure Queued where
   dbRef : Nat
   deriving Repr
 
+/-- the database a queued command runs on: the one its connection has selected when EXEC gets to it (a
+    SELECT earlier in the same transaction counts); with quirk D25 the one selected when it was queued -/
+def Queued.ref (x : Queued) (q : Quirks) (current : Nat) : Nat :=
+  if q.multiBindsAtQueue then x.dbRef else current
+
 structure Session where
   dbIdx : Nat := 0
   dbRef : Nat := 0
@@ -688,14 +693,10 @@ def runCmd (c : Ctx) (s : State) (conn : Nat) (ref : Nat) (inMulti : Bool) : Cmd
   | .keys _ => onDb s ref fun db => { db := db, reply := .nil, hint := .custom "keys" }
   | .randomkey => onDb s ref fun db => { db := db, reply := .nil, hint := .custom "randomkey" }
   | .dbsize =>
-      let ses := s.session conn
-      -- `dss.dbSize(selectedDb)`: the table's database, raw count
-      match s.table.find? (·.1 == ses.dbIdx) with
-      | none => { st := s, reply := .int 0 }
-      | some (_, r) =>
-        let db := s.getDb r
-        let n := if c.q.rawLookupSeesExpired then db.keys.length else (db.liveKeys c.now).length
-        { st := s, reply := vInt n }
+      -- `ctx.dsc.dbSize()`: the data store the command is bound to, live keys only
+      let db := s.getDb ref
+      let n := if c.q.rawLookupSeesExpired then db.keys.length else (db.liveKeys c.now).length
+      { st := s, reply := vInt n }
   | .expire k n unit abs opt => onDb s ref fun db =>
       cmdExpireAt c db k (if abs then n * unit else c.now + n * unit) opt
   | .persist k => onDb s ref fun db => cmdPersist c db k
@@ -826,7 +827,7 @@ def execQueue (c : Ctx) (conn : Nat) : List Queued → List Value → State → 
         -- the implementation reads its clock again for every queued command; `impls` are the
         -- elements of the implementation's EXEC reply (the float commands adopt their text)
         let c := { c with now := c.now + 1000, impl := impls.head? }
-        let o := runCmd c s conn q.dbRef true cmd
+        let o := runCmd c s conn (q.ref c.q (s.session conn).dbRef) true cmd
         match o.crash with
         | some site => (o.st, vs.reverse, hs.reverse, ps, some site)
         | none =>
